@@ -166,6 +166,43 @@ def formatting_typed():
     return out
 
 
+def formatting_instances():
+    """every feedback is rendered through the formatter of ITS OWN report, as that report holds it at that moment: two reports with
+    two differently configured instances of one formatter class, and one report whose formatter is replaced"""
+    from pedal.core.report import Report
+
+    class Tagged(Formatter):
+        def __init__(self, tag, report=None):
+            super().__init__(report)
+            self.tag = tag
+
+        def name(self, x):
+            return '<%s:name:%s>' % (self.tag, x)
+
+        def python_value(self, x):
+            return '<%s:value:%s>' % (self.tag, x)
+
+    class tagfb(Feedback):
+        message_template = 'N {x:name} V {x:python_value} W {x:>6:name}'
+    out = []
+    r1, r2 = Report(), Report()
+    r1.set_formatter(Tagged('one', r1))
+    r2.set_formatter(Tagged('two', r2))
+    for step, (rep, tag) in enumerate([(r1, 'one'), (r2, 'two'), (r1, 'one'), (r2, 'two')]):
+        f = tagfb(x='v%d' % step, report=rep)
+        out.append({'step': 'two-reports:%d' % step, 'tag': tag, 'message': f.message})
+    r1.set_formatter(Tagged('three', r1))
+    f = tagfb(x='late', report=r1)
+    out.append({'step': 'formatter-replaced', 'tag': 'three', 'message': f.message})
+    MAIN_REPORT.full_clear()
+    MAIN_REPORT.set_formatter(Tagged('main', MAIN_REPORT))
+    f = tagfb(x='m')
+    out.append({'step': 'main-report', 'tag': 'main', 'message': f.message})
+    MAIN_REPORT.set_formatter(Formatter(MAIN_REPORT))
+    MAIN_REPORT.full_clear()
+    return out
+
+
 FIELDS = ['title', 'message_template', 'priority', 'muted']
 
 
@@ -194,6 +231,8 @@ def overrides(case):
     err = None
     # report 0 is MAIN_REPORT (addressed implicitly, as instructor code does); reports 1.. are separate Report objects
     others = [None, Report(), Report()]
+    from pedal.core.submission import Submission
+    same_submission = Submission(main_code='y = 2\n')
     for op in case:
         try:
             rep = op[3] if op[0] == 'override' and len(op) > 3 else (op[1] if op[0] != 'override' and len(op) > 1 else 0)
@@ -205,6 +244,9 @@ def overrides(case):
                     others[rep].clear()
                 else:
                     clear_report()
+            elif op[0] == 'contextualize_same':
+                # the very same Submission object attached again (a grader that re-runs on one submission)
+                contextualize_report(same_submission, **kw)
             else:
                 contextualize_report('x = 1', **kw)
         except Exception as e:
@@ -295,6 +337,7 @@ def main():
            'formatting': formatting(data['formatting']),
            'formatting_typed': formatting_typed() if data.get('typed') else [],
            'parents': parents() if data.get('typed') else [],
+           'formatting_instances': formatting_instances() if data.get('typed') else [],
            'overrides': [overrides(c) for c in data['overrides']]}
     json.dump(out, open(sys.argv[1], 'w'), default=str)
 
